@@ -13,7 +13,7 @@
 // Commands (every command starts with a yield point, event "C <text>", and ends with an event
 // "R <value>" logged inside its last step):
 //   any thread   : wake <w> | drop <w> | send <c> <m> | closed <c>
-//   main only    : new <w> | fill <n> | poll | spawn | join | cnew <c> | cdrop <c>
+//   main only    : new <w> | fill <n> | poll | pollif (poll_wake only if notified since the last one) | spawn | join | cnew <c> | cdrop <c>
 //                  | pnew <p> | psend <p> <m> | pdrop <p>
 //   piped worker : recv | send <m> | cancel | panic       (end of script = return)
 //
@@ -38,6 +38,7 @@ enum Cmd {
     New(u32),
     Fill(u32),
     Poll,
+    PollIf,
     Spawn,
     Join,
     CNew(u32),
@@ -60,6 +61,7 @@ fn text(c: &Cmd) -> String {
         Cmd::New(w) => format!("new {}", w),
         Cmd::Fill(n) => format!("fill {}", n),
         Cmd::Poll => "poll".into(),
+        Cmd::PollIf => "pollif".into(),
         Cmd::Spawn => "spawn".into(),
         Cmd::Join => "join".into(),
         Cmd::CNew(c) => format!("cnew {}", c),
@@ -87,6 +89,7 @@ fn parse_cmd(s: &str, piped: bool) -> Cmd {
         "new" => Cmd::New(n(1) as u32),
         "fill" => Cmd::Fill(n(1) as u32),
         "poll" => Cmd::Poll,
+        "pollif" => Cmd::PollIf,
         "spawn" => Cmd::Spawn,
         "join" => Cmd::Join,
         "cnew" => Cmd::CNew(n(1) as u32),
@@ -103,11 +106,15 @@ fn parse_cmd(s: &str, piped: bool) -> Cmd {
 
 #[derive(Default)]
 struct Registry {
+    used: std::collections::HashSet<u32>, // waker ids are never reused (an id names one waker for the whole run)
     wakers: HashMap<u32, Arc<Waker>>,
     chans: HashMap<u32, Channel<u64>>,
 }
 
 static REG: Mutex<Option<Registry>> = Mutex::new(None);
+
+// set by the poll-waker callback, cleared when a poll_wake starts (what an I/O poller does)
+static NOTIFIED: std::sync::atomic::AtomicBool = std::sync::atomic::AtomicBool::new(false);
 
 fn reg<R>(f: impl FnOnce(&mut Registry) -> R) -> R {
     let mut g = REG.lock().unwrap_or_else(|e| e.into_inner());
@@ -287,7 +294,10 @@ fn main() {
     }));
 
     let mut s = Stakker::new(Instant::now());
-    s.set_poll_waker(|| ctl::yield_event("NOTIFY", String::new()));
+    s.set_poll_waker(|| {
+        ctl::yield_event("NOTIFY", String::new());
+        NOTIFIED.store(true, std::sync::atomic::Ordering::SeqCst);
+    });
     let mut guards: HashMap<u32, ChannelGuard> = HashMap::new();
     let mut pipes: HashMap<u32, PipedThread<u64, u64>> = HashMap::new();
     let mut fillers: Vec<Waker> = Vec::new();
@@ -302,7 +312,7 @@ fn main() {
         }
         match c {
             Cmd::New(w) => {
-                if reg(|r| r.wakers.contains_key(&w)) {
+                if reg(|r| !r.used.insert(w)) {
                     ret("bad");
                 } else {
                     let wk = s.waker(move |_s, deleted| {
@@ -323,8 +333,17 @@ fn main() {
                 ret("-");
             }
             Cmd::Poll => {
+                NOTIFIED.store(false, std::sync::atomic::Ordering::SeqCst);
                 s.poll_wake();
                 ret("-");
+            }
+            Cmd::PollIf => {
+                if NOTIFIED.swap(false, std::sync::atomic::Ordering::SeqCst) {
+                    s.poll_wake();
+                    ret("1");
+                } else {
+                    ret("0");
+                }
             }
             Cmd::Spawn => {
                 let script = parse_script(nthreads, false);
